@@ -5,6 +5,7 @@ lives inside a stateful model driver (m_devseq / m_memseq).  Every yielded
 command goes to the driver as `cmd <ClassName> <bits> <frame>`; the driver
 answers with the specification unit's response (none / byte n / err), which is
 wrapped in the command's real response class and sent into the generator."""
+from common import exc_name  # noqa: E402
 from common import Model, InfraError
 
 
@@ -78,7 +79,7 @@ class LockStep:
         except BaseException as e:  # noqa
             if isinstance(e, (KeyboardInterrupt, SystemExit)):
                 raise
-            return "err " + type(e).__name__, trace, badop
+            return "err " + exc_name(e), trace, badop
 
     def finish(self, end_token):
         """send `end …`; returns dict(sync=…, model=…, post=…)"""
